@@ -663,3 +663,24 @@ def replay(ctx: Ctx):
     ctx.obligation("replayed case agrees with the model", not bad and not errs)
     if bad or errs:
         report(ctx, case, set())
+
+
+def crossing_edges_witness(backend):
+    """C19_n_edges_crossing_refuted on the real code: clusters {0,1},{2,3}, edges 0-1, 1-2, 2-3 at 0.9,
+    threshold 0.5.  Returns (reproduced, details); reproduced iff some cluster's n_edges differs from
+    the number of thresholded edges inside it."""
+    from splink import Linker, SettingsCreator
+    lk = Linker(pd.DataFrame({"unique_id": [0, 1, 2, 3]}),
+                SettingsCreator(link_type="dedupe_only", comparisons=[], blocking_rules_to_generate_predictions=[]), su.make_api(backend))
+    su.quiet()
+    dp = lk.table_management.register_table(pd.DataFrame({"unique_id_l": [0, 1, 2], "unique_id_r": [1, 2, 3],
+                                                          "match_probability": [0.9, 0.9, 0.9]}), "__splink__df_predict_verif_w", overwrite=True)
+    dc = lk.table_management.register_table(pd.DataFrame({"cluster_id": [0, 0, 2, 2], "unique_id": [0, 1, 2, 3]}),
+                                            "__splink__df_clustered_verif_w", overwrite=True)
+    gm = lk.clustering.compute_graph_metrics(dp, dc, threshold_match_probability=0.5)
+    rows = sorted((int(r["cluster_id"]), int(r["n_nodes"]), float(r["n_edges"]), None if r["density"] is None else float(r["density"]))
+                  for r in gm.clusters.as_record_dict())
+    inside = {0: 1, 2: 1}
+    reproduced = any(ne != inside[c] for c, _, ne, _ in rows)
+    return reproduced, {"backend": backend, "clusters_table": rows, "edges_inside_each_cluster": inside,
+                        "model_predicts": [[0, 2, 1.5, 1.5], [2, 2, 1.5, 1.5]]}
